@@ -2,5 +2,5 @@
 EXTENDS BDDSpec
 N3 == <<"a", "b", "c">>
 N4 == <<"a", "b", "c", "d">>
-DeclActions == {"var", "apply", "drop", "gc", "swap", "add_var", "undeclare"}
+DeclActions == {"var", "build", "apply", "drop", "gc", "swap", "add_var", "undeclare"}
 ====
